@@ -401,11 +401,29 @@ def epoch_expr():
     if len(rets) != 1:
         return None, "expected exactly one return"
 
-    def tr(n):
+    # scalar locals that are initialised once and never written again are followed (a harmless
+    # `const long us = ...; return s + us;` must not change the translation)
+    inits, written = {}, set()
+    for n in walk(fn):
+        k = n.get("kind")
+        if k == "VarDecl" and n.get("inner"):
+            inits[n.get("name")] = n["inner"][-1]
+        if (k == "BinaryOperator" and n.get("opcode") in ("=", ",")) or k == "CompoundAssignOperator" or \
+                (k == "UnaryOperator" and n.get("opcode") in ("++", "--", "&")):
+            tgt = strip_casts(n["inner"][0])
+            if tgt.get("kind") == "DeclRefExpr":
+                written.add(tgt.get("referencedDecl", {}).get("name"))
+
+    def tr(n, depth=0):
         n = strip_casts(n)
         k = n.get("kind")
         if k == "IntegerLiteral":
             return ".lit %d" % int(n["value"])
+        if k == "DeclRefExpr":
+            nm = n.get("referencedDecl", {}).get("name")
+            if nm in inits and nm not in written and depth < 8:
+                return tr(inits[nm], depth + 1)
+            return None
         if k == "MemberExpr":
             nm = n.get("name")
             if nm == "tv_sec":
@@ -414,8 +432,8 @@ def epoch_expr():
                 return ".nsec"
             return None
         if k == "BinaryOperator":
-            a = tr(n["inner"][0])
-            b = tr(n["inner"][1])
+            a = tr(n["inner"][0], depth)
+            b = tr(n["inner"][1], depth)
             if a is None or b is None:
                 return None
             op = {"+": "add", "*": "mul", "/": "div", "-": "sub"}.get(n.get("opcode"))
